@@ -598,7 +598,7 @@ func scC08Race(r *Run) {
 }
 
 func init() {
-	register(&PropDef{ID: "C08", Quick: 1300, Thorough: 25000, Profiles: []ProfileDef{
+	register(&PropDef{ID: "C08", Quick: 1300, Thorough: 60000, Profiles: []ProfileDef{
 		{Name: "serial", Share: 10, Sc: scC08Serial},
 		{Name: "race", Share: 3, Sc: scC08Race, Race: true},
 	}})
